@@ -1,3 +1,4 @@
+#![allow(unreachable_pub, dead_code, missing_docs, unused_imports, unused_variables, unused_mut, static_mut_refs, clippy::all)]
 // Kani harnesses for iroh-base/src/endpoint_addr.rs (C02: custom transport addresses).
 use super::*;
 include!("/verif/kani/common.rs");
@@ -17,11 +18,15 @@ fn c02_custom_addr_binary_roundtrip() {
     assert!(a.data().len() == len);
     assert!(matches!(a.data, CustomAddrBytes::Inline { .. }) == (len <= 30));
     let i: usize = kani::any();
-    kani::assume(i < len);
-    assert!(a.data()[i] == buf[i]);
+    let i = if len == 0 { 0 } else { i % len };
+    if len > 0 {
+        assert!(a.data()[i] == buf[i]);
+    }
     let v = a.to_vec();
     assert!(v.len() == 8 + len);
-    assert!(v[8 + i] == buf[i]);
+    if len > 0 {
+        assert!(v[8 + i] == buf[i]);
+    }
     let j: usize = kani::any();
     kani::assume(j < 8);
     assert!(v[j] == id.to_le_bytes()[j]);
@@ -30,11 +35,14 @@ fn c02_custom_addr_binary_roundtrip() {
         Ok(b) => {
             assert!(b.id() == id);
             assert!(b.data().len() == len);
-            assert!(b.data()[i] == buf[i]);
+            if len > 0 {
+                assert!(b.data()[i] == buf[i]);
+            }
             assert!(matches!(b.data, CustomAddrBytes::Inline { .. }) == (len <= 30));
         }
         Err(_) => assert!(false, "from_bytes(to_vec) failed"),
     }
+    kani::cover!(len == 0);
     kani::cover!(len == 30);
     kani::cover!(len == 31);
     kani::cover!(len == 40);
@@ -77,8 +85,9 @@ fn c02_custom_addr_from_bytes_total() {
         idb.copy_from_slice(&buf[..8]);
         assert!(a.id() == u64::from_le_bytes(idb));
         let i: usize = kani::any();
-        kani::assume(i < len - 8);
-        assert!(a.data()[i] == buf[8 + i]);
+        if i < len - 8 {
+            assert!(a.data()[i] == buf[8 + i]);
+        }
     }
     kani::cover!(len == 7);
     kani::cover!(len == 8);
